@@ -10,6 +10,11 @@ EXOTIC_DTYPES = [np.dtype("longdouble").name, np.dtype("clongdouble").name, ">f4
 NAME_POOL = ["a", "b", "lif", "input", "output", "type", "nodes", "edges", "metadata", "x y", "ünï", "日本",
              "é", "a.b", "n\n1", "Ω", "version", "node", "0", "..", "tab\t", "q" * 300, "UP", "w_in"]
 BAD_NAMES = ["a/b", "/a", "a/", "a\x00b"]
+# names with a special role somewhere between Python, numpy and HDF5: a leading byte order mark, non-canonical digit strings,
+# words that are parameter / attribute / field names inside the library, "->" (used in messages), keywords
+ODD_NAMES = ["\ufefflif", "lif\ufeff", "007", "7", "01", "1", "\u0663", "group", "name", "value", "self", "item", "filename", "graph",
+             "node_dict", "k", "v", "key", "data", "dtype", "shape", "input_type", "output_type", "inputs", "outputs", "a->b", "b->c",
+             "b->c->d", "->", "None", "True", "class", "__class__", "__dict__", "from_dict", "to_dict", "%s", "{}", "{0}", "\\"]
 ELEMENTWISE = {"Scale": ["scale"], "Threshold": ["threshold"], "Delay": ["delay"], "I": ["r"],
                "IF": ["r", "v_threshold"], "LI": ["tau", "r", "v_leak"],
                "LIF": ["tau", "r", "v_leak", "v_threshold"],
@@ -32,6 +37,8 @@ def rand_array(rng, shape, dt=None):
         info = np.iinfo(d)
         a = np.array([rng.choice([info.min, info.max, 0, 1, rng.randint(max(info.min, -99), min(info.max, 99))])
                       for _ in range(n)], dtype=d)
+    if d.kind == "f" and n >= 2 and rng.random() < 0.04:
+        a = np.array([(-0.0 if i % 2 == 0 else 0.0) for i in range(n)], dtype=d)     # constant under ==, not bitwise
     if d.kind in "fc" and d.itemsize // (2 if d.kind == "c" else 1) > 8:
         with np.errstate(all="ignore"):
             a = a / d.type(3)       # values a double cannot hold
@@ -66,7 +73,8 @@ def rand_meta(rng, depth):
     def tree(d):
         out = {}
         for _ in range(rng.randint(0, 3)):
-            k = rng.choice(["k", "note", "ünï", "α β", "n", "arr", "f", "sub", "type", "q" * 40, "x.y", "rate%2Fhz", "50%2F50", "%", "%25", "2024-03-01", "input_type",
+            k = rng.choice(["k", "note", "ünï", "α β", "n", "arr", "f", "sub", "type", "q" * 40, "x.y", "rate%2Fhz", "50%2F50", "%", "%25", "2024-03-01",
+                            "group", "name", "value", "self", "key", "data", "dtype", "\ufeffk", "k\ufeff", "a->b", "input_type",
                             "output_type", "weight", "shape", "nodes", "edges"])
             r = rng.random()
             if r < 0.2:
@@ -74,7 +82,8 @@ def rand_meta(rng, depth):
                                      "nbsp\u00a0", "caf\u0065\u0301", "\u2126 ohm",
                                  # text that LOOKS like another kind of value (dates, numbers, booleans, escapes)
                                  "2024-03-01", "20240301", "2024-03-01T12:30:00+00:00", "12:30", "1e5", "nan", "True", "None", "0x10",
-                                 "1_000", "[1, 2]", "{}", "%2F", "a%2Fb", "\\n", "b'x'"])
+                                 "1_000", "[1, 2]", "{}", "%2F", "a%2Fb", "\\n", "b'x'",
+                                 "\ufeffexported", "\ufeff", "mid\ufeffdle", "Linear", "Scale", "NIRGraph", "LIF"])
             elif r < 0.35:
                 out[k] = rng.choice([0, 1, -7, 2 ** 40, 2 ** 63 - 1])
             elif r < 0.5:
@@ -87,6 +96,11 @@ def rand_meta(rng, depth):
                 out[k] = tree(d - 1)
             else:
                 out[k] = {}
+        if rng.random() < 0.06:
+            # a dictionary that LOOKS like a serialised node
+            out[rng.choice(["converted_from", "origin", "k"])] = rng.choice([
+                {"type": "Linear", "source": "torch.nn.Linear"}, {"type": "Scale", "scale": np.ones(2, dtype="float32")},
+                {"type": "NIRGraph", "nodes": {}, "edges": []}, {"type": "Input", "shape": np.array([2])}])
         return out
     return tree(depth)
 
@@ -167,6 +181,10 @@ def rand_leaf(rng):
 def serial_graph(rng, depth=2, max_nodes=7, bad_names=False, shared=False):
     names = NAME_POOL[:]
     rng.shuffle(names)
+    if rng.random() < 0.35:
+        odd = ODD_NAMES[:]
+        rng.shuffle(odd)
+        names += odd[:rng.randint(1, 4)]       # popped first
     if rng.random() < 0.25:
         names.append(rng.choice(["lif ", " ", "sub .ü  ", " lead"]))    # popped first
     n = rng.randint(0, max_nodes)
